@@ -367,6 +367,9 @@ func (w *c09World) verdict(r *vrt.Result) sched.Verdict {
 				}
 			}
 		}
+		if !accepted && (w.cs.Fault == "complete" || w.cs.Fault == "garbage") && f.raw != nil && !f.raw.PeerClosed() && !f.raw.ClosedLocally() {
+			return fail("gate:rejected-client-not-disconnected", fmt.Sprintf("the client with credential %q (connection %s, %s; fault %s, configuration %s) was refused but the server never closed its connection", w.cs.Cred, fr, f.hs, w.cs.Fault, w.cs.Config))
+		}
 		if accepted && !called(fr) {
 			return fail("gate:accepted-client-not-served", fmt.Sprintf("client with credential %q must be served under configuration %s but its command never reached the handler", w.cs.Cred, w.cs.Config))
 		}
